@@ -24,7 +24,7 @@ Definition dec_ev (v : tval) : ev :=
   end.
 
 Definition dec_variant (v : tval) : variant :=
-  {| v_success_gate := vbool (vnth 0 v); v_anon_delete := vbool (vnth 1 v) |}.
+  {| v_success_gate := vbool (vnth 0 v); v_anon_delete := vbool (vnth 1 v); v_first_keeps := vbool (vnth 2 v) |}.
 
 Definition b2n (b : bool) : N := if b then 1 else 0.
 Definition on (o : option N) : N := match o with Some n => n | None => 0 end.
